@@ -2283,7 +2283,8 @@ foamFrBuffer(Buffer buf)
 			break;
 		case 'b':
 			n = bufGetByte(buf);
-			foamArgv(foam)[si].data = (char)n;
+			/* A character is an unsigned byte (FiChar). */
+			foamArgv(foam)[si].data = (tag == FOAM_Char) ? n : (char)n;
 			break;
 		case 'h':
 			n = bufGetHInt(buf);
